@@ -164,7 +164,7 @@ func vfRunProbe(p vfProbe, uid string, port int, failLine []byte, adopted <-chan
 		return res
 	}
 	defer conn.Close()
-	if p.Kind == "early_right_greeting" {
+	if p.Kind == "early_right_greeting" || p.Kind == "split_greeting" {
 		// connected (and accepted) while nobody has been adopted yet, silent until the genuine connection has been adopted, and only
 		// then presenting the right greeting: a second connection, which must never be used
 		select {
@@ -192,9 +192,13 @@ func vfRunProbe(p vfProbe, uid string, port int, failLine []byte, adopted <-chan
 		conn.Write([]byte(hello))
 		res.sentGood = true
 	case "split_greeting":
+		// two writes are usually two reads (then the first read is not the greeting), but a server that gets round to reading late
+		// sees them as one: this is a right greeting then. Sent only after the genuine adoption, so that either way the connection
+		// must never be used: at most the greeting answer comes back.
 		conn.Write([]byte(hello[:10]))
 		time.Sleep(150 * time.Millisecond)
 		conn.Write([]byte(hello[10:]))
+		res.sentGood = true
 	case "silence":
 	case "flood":
 		conn.Write(bytes.Repeat([]byte("A"), 1<<20))
